@@ -67,7 +67,7 @@ def g_reads():
             if key == 'utils' and qual not in ('reflect', 'symm_pad_1d'):
                 continue
             bad = []
-            decos = [ast.unparse(d) for d in fn.decorator_list if ast.unparse(d) not in ('staticmethod',)]
+            decos = [ast.unparse(d) for d in fn.decorator_list if ast.unparse(d) not in ('staticmethod', 'classmethod', 'property')]
             if decos:
                 bad.append('decorated with %s (memoisation / wrapping)' % decos)
             for node in ast.walk(fn):
